@@ -132,6 +132,12 @@ class ParserContext:
             if name in self.args:
                 msg = "Tried to add an argument named {!r} but one already exists!"  # noqa
                 raise ValueError(msg.format(name))
+        for name in arg.names:
+            if to_flag(name) in self.inverse_flags:
+                msg = "Flag {!r} collides with the inverse flag of {!r}!"
+                raise ValueError(
+                    msg.format(to_flag(name), self.inverse_flags[to_flag(name)])
+                )
         # First name used as "main" name for purposes of aliasing
         main = arg.names[0]  # NOT arg.name
         self.args[main] = arg
@@ -152,6 +158,9 @@ class ParserContext:
             # of the primary argument name if underscore-to-dash transformation
             # occurred.
             inverse_name = to_flag("no-{}".format(main))
+            if inverse_name in self.flags:
+                msg = "Inverse flag {!r} of {!r} collides with an existing flag!"
+                raise ValueError(msg.format(inverse_name, main))
             self.inverse_flags[inverse_name] = to_flag(main)
 
     @property
